@@ -434,6 +434,57 @@ def rule_reg_live(db: ProgramDB) -> List[Instance]:
                         "the per-evaluation reset of the variable drops a domain that was taken from the registry" if ok_b else
                         f"`{unparse(a)[:60]}` memoises the registry as the variable's domain and the per-evaluation reset keeps it: the same query evaluated again "
                         f"after more instances were constructed (or the registry was cleared) returns the instances of its first evaluation", line=a.lineno))
+    # (b2) the drop depends on nothing but the mark: whenever the mark is set, the domain is dropped
+    from ..boolexpr import guards_of, guard_table
+    marks = set()
+    for m, a in takers:
+        body_of = db.parent(a)
+        for st in own_nodes(m.node):
+            if isinstance(st, ast.Assign) and isinstance(st.value, ast.Constant) and st.value.value is True:
+                for t in st.targets:
+                    if isinstance(t, ast.Attribute) and unparse(t.value) == "self":
+                        marks.add(t.attr)
+    rm = var.methods.get("_reset_only_my_cache_")
+    if rm is not None and rm.cls is var and marks:
+        drops = [a for a in own_nodes(rm.node) if isinstance(a, ast.Assign) and any(isinstance(t, ast.Attribute) and unparse(t.value) == "self"
+                 and t.attr in ("_domain_", "_domain_source_") for t in a.targets)]
+        for a in drops:
+            gs = guards_of(a, rm.node.body) or []
+            atoms: List[str] = []
+
+            def atom_of(e):
+                if isinstance(e, (ast.Attribute, ast.Name, ast.Call, ast.Subscript)) or (isinstance(e, ast.Compare) and not
+                        (len(e.ops) == 1 and isinstance(e.ops[0], (ast.Eq, ast.NotEq, ast.Is, ast.IsNot)) and isinstance(e.comparators[0], ast.Constant)
+                         and isinstance(e.comparators[0].value, bool))):
+                    u = unparse(e)
+                    if u not in atoms:
+                        atoms.append(u)
+                    return u
+                return None
+            from ..boolexpr import eval_bool
+
+            class _Any(dict):
+                def __missing__(self, k):
+                    return True
+            for g, _ in gs:                        # collects the atoms (both values, so that no operand is short-cut away)
+                eval_bool(g, atom_of, _Any())
+            mark_atoms = [x for x in atoms if x in {f"self.{k}" for k in marks}]
+            tbl = guard_table(gs, atom_of, atoms) if atoms else {(): True}
+            bad_rows = [vals for vals, reached in tbl.items() if not reached and mark_atoms and all(vals[atoms.index(k)] for k in mark_atoms)]
+            tgt = [t.attr for t in a.targets if isinstance(t, ast.Attribute)][0]
+            if not mark_atoms and gs:
+                out.append(inst("REG-LIVE", UNDECIDED, rm, f"{rm.short}[{tgt} dropped whenever the domain is the registry's]",
+                                f"`{unparse(a)}` is guarded by {[unparse(g) for g, _ in gs]}, none of which is the mark {sorted(marks)}", line=a.lineno))
+                continue
+            if bad_rows:
+                others = [x for x in atoms if x not in mark_atoms]
+                out.append(inst("REG-LIVE", VIOLATION, rm, f"{rm.short}[{tgt} dropped whenever the domain is the registry's]",
+                                f"`{unparse(a)}` is not reached although the domain is marked as taken from the registry, depending on {others}: "
+                                f"with that extra condition false the variable keeps the domain source of its first evaluation, and what it ranges "
+                                f"over afterwards is the registry as it was then (instances constructed since are missed or seen late)", line=a.lineno))
+            else:
+                out.append(inst("REG-LIVE", HOLDS, rm, f"{rm.short}[{tgt} dropped whenever the domain is the registry's]",
+                                "reached whenever the mark is set", line=a.lineno))
     # (c)
     qod = db.cls("QueryObjectDescriptor")
     r = qod.methods.get("_reset_only_my_cache_")
@@ -501,21 +552,46 @@ def rule_reg_no_probe(db: ProgramDB) -> List[Instance]:
 
 def rule_reg_live_conclusions(db: ProgramDB) -> List[Instance]:
     """(d) of REG-LIVE: a variable that only a conclusion mentions is below no condition; the conclusion's own reset visits the
-    variables of its value."""
+    variables of the expression every conclusion evaluates (its value) - not those of some other field."""
     out = []
     concl = db.cls("Conclusion")
     resets = [m for k in [concl] + concl.all_subclasses() for n, m in k.methods.items() if n in ("_reset_cache_", "_reset_only_my_cache_") and m.cls is k]
-    ok = any(any(isinstance(l, ast.For) and any(isinstance(a, ast.Attribute) and a.attr in ("_all_variable_instances_", "_unique_variables_", "_descendants_") for a in ast.walk(l.iter))
-                 and any(isinstance(c, ast.Call) and call_attr(c) in ("_reset_only_my_cache_", "_reset_cache_") for c in ast.walk(l)) for l in own_nodes(m.node))
-             or any(isinstance(c, ast.Call) and call_attr(c) == "_reset_cache_" and "value" in unparse(c.func.value) for c in own_nodes(m.node))
-             for m in resets)
-    # or conclusions do not override the reset at all and their value is linked below them
+    # the fields every concrete conclusion evaluates
+    evaluated = None
+    for k in concl.all_subclasses():
+        for n, m in k.methods.items():
+            if m.cls is k and is_eval_method_name(n):
+                fs = {c.func.value.attr for c in own_calls(m) if is_eval_method_name(call_attr(c) or "") and isinstance(c.func.value, ast.Attribute)
+                      and unparse(c.func.value.value) == "self"}
+                evaluated = fs if evaluated is None else evaluated & fs
+    if not evaluated:
+        raise AnalysisError("Conclusion: no field that every conclusion evaluates found")
+    whole = concl.lookup("_all_variable_instances_")
+    whole_fields = {a.value.attr for a in own_nodes(whole.node) if isinstance(a, ast.Attribute) and a.attr == "_all_variable_instances_"
+                    and isinstance(a.value, ast.Attribute) and unparse(a.value.value) == "self"} if whole is not None and whole.cls is concl else set()
+
+    def visited(m) -> Set[str]:
+        got: Set[str] = set()
+        for l in own_nodes(m.node):
+            if isinstance(l, ast.For) and any(isinstance(c, ast.Call) and call_attr(c) in ("_reset_only_my_cache_", "_reset_cache_") for c in ast.walk(l)):
+                for a in ast.walk(l.iter):
+                    if isinstance(a, ast.Attribute) and a.attr in ("_all_variable_instances_", "_unique_variables_", "_descendants_"):
+                        if unparse(a.value) == "self":
+                            got |= whole_fields if a.attr == "_all_variable_instances_" else set(evaluated)
+                        elif isinstance(a.value, ast.Attribute) and unparse(a.value.value) == "self":
+                            got.add(a.value.attr)
+            if isinstance(l, ast.Call) and call_attr(l) == "_reset_cache_" and isinstance(l.func.value, ast.Attribute) and unparse(l.func.value.value) == "self":
+                got.add(l.func.value.attr)
+        return got
     overridden = bool(resets)
+    got = set().union(*[visited(m) for m in resets]) if resets else set()
+    missing = sorted(evaluated - got)
+    ok = not missing
     out.append(inst("REG-LIVE", HOLDS if ok or not overridden else VIOLATION, concl, "Conclusion[the reset reaches the variables of the concluded value]",
-                    "the conclusion's reset visits the variables of its value" if ok else
+                    f"the conclusion's reset visits the variables of what every conclusion evaluates ({', '.join(sorted(evaluated))})" if ok else
                     ("conclusions inherit the recursive reset" if not overridden else
-                     "Conclusion overrides the reset without visiting the variables of its value: a variable declared without a domain that only a conclusion mentions "
-                     "(Add(v, Dr(handle=h)) with h = let(H)) keeps the registry snapshot of the first evaluation")))
+                     f"Conclusion overrides the reset and visits {sorted(got) or 'nothing'}, not the variables of `self.{missing[0]}`, which every conclusion evaluates: a variable "
+                     f"declared without a domain that only a conclusion mentions (Add(v, Dr(handle=h)) with h = let(H)) keeps the registry snapshot of the first evaluation")))
     return out
 
 
